@@ -156,7 +156,9 @@ class Check(PropertyCheck):
             "with FlowWriter or FilteredFlowWriter, cut at every offset of a window of <=500 offsets and read back; hooks: the "
             "real Save addon streaming to a file through an interleaved hook sequence of 2-5 flows of mixed types with option "
             "updates while the stream runs (save_stream_filter set/changed/cleared; save_stream_file re-stated, mode toggled, "
-            "switched to a second path, stopped and restarted; append and overwrite mode), every file read after each event: "
+            "switched to a second path, stopped and restarted; updates that the addon REFUSES — a directory or a path under a file as "
+            "stream file, an unparsable filter, alone or combined with a valid change — sent through the real OptManager so that its "
+            "rollback re-runs configure; append and overwrite mode), every file read after each event: "
             "finished flows may never disappear (only a user-requested overwrite-mode (re)open may start a file afresh); real: explicit save.file to a real file, truncated copies read with read_flows_from_paths. "
             "distinct = distinct (file, window) / hook script; non-trivial = at least one cut strictly inside a record.")
     budget = {"quick": 400, "thorough": 24000}
@@ -337,7 +339,8 @@ class Check(PropertyCheck):
         if case.get("options", 1):
             for _ in range(r.choice([0, 1, 1, 2, 3])):
                 c = r.random()
-                if c < 0.5: ev = [("filter", r.choice(self.FILTERS))]
+                if c < 0.2: ev = [("fail", r.choice(["dir", "+dir", "under-file", "filter", "file+filter", "dir+filter"]))]   # an update that is refused and rolled back
+                elif c < 0.5: ev = [("filter", r.choice(self.FILTERS))]
                 elif c < 0.6: ev = [("file", "same")]                              # the current spec once more
                 elif c < 0.7: ev = [("file", "toggle")]                            # same path, other mode
                 elif c < 0.85: ev = [("file", r.choice(["", "+"]) + r.choice(["A", "B"]))]
@@ -428,6 +431,29 @@ class Check(PropertyCheck):
                         st["filt"] = ev[1]
                         tctx.configure(sa, save_stream_filter=ev[1])
                         ops = ["noop"]                          # a filter change does not touch what is in the file
+                    elif ev[0] == "fail":
+                        # an option update that the addon refuses (OptionsError): the real OptManager rolls the options back and
+                        # runs configure once more. Nothing about the stream may change: not the file, not what is in it.
+                        os.makedirs(os.path.join(d, "adir"), exist_ok=True)
+                        cur_real = ("+" if (st["spec"] or "").startswith("+") else "") + real[st["cur"]] if st["cur"] else None
+                        bad_updates = {
+                            "dir": {"save_stream_file": os.path.join(d, "adir")},
+                            "+dir": {"save_stream_file": "+" + os.path.join(d, "adir")},
+                            "under-file": {"save_stream_file": os.path.join(real[st["cur"] or "A"], "x.mitm")},
+                            "filter": {"save_stream_filter": "~~"},
+                            "file+filter": {"save_stream_file": real["B" if st["cur"] == "A" else "A"], "save_stream_filter": "~~"},
+                            "dir+filter": {"save_stream_file": os.path.join(d, "adir"), "save_stream_filter": "~http"},
+                        }[ev[1]]
+                        if not st["active"] and "save_stream_file" in bad_updates and ev[1] != "file+filter":
+                            bad_updates = {"save_stream_filter": "~~"}       # no stream running: only the filter can be refused
+                        try:
+                            tctx.options.update(**bad_updates)
+                            refused = False
+                        except exceptions.OptionsError:
+                            refused = True
+                        ops = ["noop"]
+                        if not refused:
+                            raise RuntimeError(f"harness: the update {bad_updates} was expected to be refused")
                     elif ev[0] == "file":
                         spec = ev[1]
                         if spec == "same": spec = st["spec"]
